@@ -43,6 +43,12 @@ type Opts struct {
 	// SelfNestedDeco allows a decorator to be used inside its own decorated
 	// block (finding C01-f).
 	SelfNestedDeco bool
+	// DeadCapRefs lets expressions reference capture groups of conditions
+	// that may not have been evaluated (behind a short-circuit, in an else
+	// branch, under !~): reading them is a checked runtime error, so such
+	// programs are outside the reference interpreter's use but fine for
+	// differential and fault oracles.
+	DeadCapRefs bool
 	// Fmt turns up what the formatter has to preserve (C23): string literals
 	// with \" and \\, regexes with \/, tiny bucket bounds, integral float
 	// literals, hidden / as / limit attributes.
@@ -129,6 +135,9 @@ func patternOf(c Expr) *Pattern {
 	case *Bin:
 		if pc, ok := n.L.(*PatCond); ok {
 			return pc.Pat
+		}
+		if m, ok := n.R.(*Match); ok {
+			return m.Pat
 		}
 	}
 	return nil
@@ -297,7 +306,10 @@ func (g *genCtx) capsOf(t Type) []capVar {
 			}
 		}
 		// a numbered reference $k resolves to the innermost pattern that has group k
-		if vis && c.t == t && !c.dead {
+		if vis && c.t == t && (!c.dead || (g.o.DeadCapRefs && g.r.Intn(3) == 0)) {
+			if c.dead {
+				g.f("dead-capture-reference")
+			}
 			out = append(out, c)
 		}
 		for _, n := range names {
@@ -763,6 +775,33 @@ func (g *genCtx) condition() (Expr, []capVar) {
 			return &Match{E: c, Pat: p, Neg: true}, deadCaps(p)
 		}
 		return &Match{E: c, Pat: p}, mkCaps(p)
+	case k == 16:
+		// expr || e =~ /re/ : when expr holds the match is never evaluated, so
+		// its captures are declared in the block but must not be used there
+		var subj Expr = &Call{Name: "getfilename", T: TString}
+		if cs := g.capsOf(TString); len(cs) > 0 && r.Bool() {
+			if cr := g.capref(ev.PickOne(r, cs)); cr != nil {
+				subj = cr
+			}
+		}
+		lhs := g.boolNoPat(1)
+		// prefer a left side that changes from line to line: an enclosing
+		// numeric capture against a mid-range literal
+		if cs := g.capsOf(TInt); len(cs) > 0 {
+			if cr := g.capref(ev.PickOne(r, cs)); cr != nil {
+				lhs = &Bin{Op: ev.PickOne(r, []string{"<", ">=", "!="}), L: cr, R: &IntLit{ev.PickOne(r, []int64{2, 5, 7, 10})}, T: TBool}
+			}
+		}
+		p := &Pattern{ID: g.npat}
+		g.npat++
+		alt := ev.PickOne(r, []struct {
+			re string
+			gs []Group
+		}{{`(\w)`, []Group{{"", TString}}}, {`^(\w)(\w*)`, []Group{{"", TString}, {"", TString}}}, {`(\d+)`, []Group{{"", TInt}}}, {`(?P<v` + fmt.Sprint(p.ID) + `>[a-z]+)`, []Group{{"v" + fmt.Sprint(p.ID), TString}}}})
+		p.Regex, p.Groups = alt.re, alt.gs
+		p.Parts = []PatPart{{Lit: alt.re}}
+		g.f("cond-expr||match")
+		return &Bin{Op: "||", L: lhs, R: &Match{E: subj, Pat: p}, T: TBool}, deadCaps(p)
 	}
 	g.f("cond-relational")
 	return g.boolNoPat(2), nil
@@ -800,6 +839,16 @@ func (g *genCtx) stmt(sc *scopeInfo) Stmt {
 		g.depth++
 		cs := &Cond{C: c}
 		cs.Then = g.block(r.Range(1, 3), &scopeInfo{})
+		if g.o.DeadCapRefs && len(caps) > 0 && caps[0].dead && r.Bool() {
+			// read a capture of the condition that may not have been evaluated
+			cv := ev.PickOne(r, caps)
+			m := g.metric("", TInt, 1)
+			if len(m.KeyTypes) == 1 && m.KeyTypes[0] == cv.t && m.Kind != "histogram" {
+				cr := &Capref{Pat: cv.pat, Idx: cv.idx, Named: cv.pat.Groups[cv.idx-1].Name != "", T: cv.t}
+				cs.Then = append([]Stmt{&IncDec{M: m, Keys: []Expr{cr}, Op: "++"}}, cs.Then...)
+				g.f("dead-capture-reference")
+			}
+		}
 		g.caps = saved
 		if r.Intn(3) == 0 {
 			cs.HasElse = true
